@@ -150,6 +150,20 @@ pub fn gen_byods<R: Src>(r: &mut R, _cfg: &GenCfg, ds: Ds, ternary: bool) -> Pro
          }
          p.rels.push(rel(&on, cols, false));
          p.rules.push(rule(vec![hd(&on, hargs)], body));
+         if recursive && r.chance(60) {
+            // pull the reader into R's stratum without changing what is derived: R <-- out_i, never (never is empty).
+            // The reader is then evaluated semi-naively against R's delta in every iteration, so its access pattern is
+            // exercised on the delta version as well as on total.
+            if !p.rels.iter().any(|d| d.name == "never") {
+               p.rels.push(rel("never", vec![T], false));
+            }
+            let back = if ternary {
+               rule(vec![hd("rr", vec![v("k"), v("a"), v("b")])], vec![cl(&on, vec![av("k"), av("a"), av("b")]), cl("never", vec![av("a")])])
+            } else {
+               rule(vec![hd("rr", vec![v("a"), v("b")])], vec![cl(&on, vec![av("a"), av("b")]), cl("never", vec![av("a")])])
+            };
+            p.rules.push(back);
+         }
       }
    }
    // negation and counting in a later stratum
